@@ -159,7 +159,7 @@ def run_property(prop, tier, seed=0):
     ctx = Ctx(prop, tier)
     cfgs = list(getattr(mod, "CONFIGS_QUICK", ["Q"]))
     if tier == "thorough":
-        cfgs = list(getattr(mod, "CONFIGS_THOROUGH", ["Q", "P", "M"]))
+        cfgs = list(getattr(mod, "CONFIGS_THOROUGH", ["Q", "P", "M", "N"]))
     fatal = None
     try:
         for cfg in cfgs:
